@@ -21,7 +21,7 @@ RULE = ("Hypothesis builds a format from distinct strptime directives of {%Y %y 
         "distinct on (format, language, name).")
 ASSUMPTIONS = ["process TZ=UTC", "localised names that are also English month/weekday names or abbreviations with another English meaning are excluded (the raw format match comes first, as the property says)",
                "weekday names are rendered consistently with the date"]
-ESSENTIAL = ["has:%f", "has:%I", "has:%y", "has:%j", "partial:no-year", "partial:no-day", "partial:no-month", "localized", "raw-precedence",
+ESSENTIAL = ["has:%f", "has:%I", "has:%y", "has:%j", "partial:no-year", "partial:no-day", "partial:no-month", "localized", "raw-precedence", "format-list",
              "hand-listed"]
 
 MONTHS = ["January", "February", "March", "April", "May", "June", "July", "August", "September", "October",
@@ -121,13 +121,19 @@ def check_case(case):
         cls.append("localized")
     if case.get("raw"):
         cls.append("raw-precedence")
+    if case.get("decoys") and tuple(case["decoys"]) != (0, 0):
+        cls.append("format-list")
     want, wperiod = expected(fmt, t, now, pday, pmonth, fd)
     if want is None:
         return {"ok": True, "skip": "completed date does not exist", "cls": cls}
     settings = {"PREFER_DAY_OF_MONTH": pday, "PREFER_MONTH_OF_YEAR": pmonth}
     clock.freeze(now)
     try:
-        dd = DateDataParser(languages=[lang or "en"], settings=settings).get_date_data(s, [fmt])
+        # decoys: formats that cannot match the rendered string (their separators never occur in it) listed before and/or
+        # after the real one — "one of the given formats" must be found wherever it stands in the list
+        pre, post = case.get("decoys") or (0, 0)
+        fmts = DECOYS[:pre] + [fmt] + (DECOYS[-post:] if post else [])
+        dd = DateDataParser(languages=[lang or "en"], settings=settings).get_date_data(s, fmts)
     finally:
         clock.freeze(None)
     nontrivial = any(c.startswith(("has:", "partial:", "localized", "raw")) for c in cls)
@@ -150,6 +156,7 @@ def check_case(case):
 
 
 SEPS = [" ", "-", "/", ".", ", ", ":", " at "]
+DECOYS = ["%Y|%m|%d", "@%H@%M", "%d~%m~%Y"]
 
 
 @st.composite
@@ -214,7 +221,8 @@ def cases(draw):
         t[2] = 28
     now = draw(gen.ref_times(1970, 2100))
     return {"fmt": fmt, "t": t, "now": now, "pday": draw(st.sampled_from(PREFS)), "pmonth": draw(st.sampled_from(PREFS)),
-            "hand": hand, "f_digits": draw(st.sampled_from([6, 6, 3, 1]))}
+            "hand": hand, "f_digits": draw(st.sampled_from([6, 6, 3, 1])),
+            "decoys": draw(st.sampled_from([[0, 0], [0, 0], [1, 0], [0, 1], [2, 1], [3, 0], [0, 2]]))}
 
 
 # -- localised names ---------------------------------------------------------------------------------
@@ -284,7 +292,8 @@ def raw_cases(draw):
     raw = sep.join("%02d" % v for v in (a, b, c))
     y = 2000 + vals["%y"]
     t = [y, vals["%m"], vals["%d"], 0, 0, 0, 0]
-    return {"fmt": fmt, "t": t, "now": [2020, 6, 15, 12, 0, 0, 0], "pday": "current", "pmonth": "current", "raw": raw}
+    return {"fmt": fmt, "t": t, "now": [2020, 6, 15, 12, 0, 0, 0], "pday": "current", "pmonth": "current", "raw": raw,
+            "decoys": draw(st.sampled_from([[0, 0], [1, 0], [0, 1], [2, 2]]))}
 
 
 def stages(ctx):
